@@ -88,7 +88,7 @@ func genC10(dir, tier string, seed int64) {
 		per = 5000
 	}
 	cw := newCaseWriter(dir, "C10_ops", opHeader("CheckC10"), opFooter,
-		"16 float operators x seeded random cases: shapes of rank 0..4 (<= 12 elements), float32 and float64, every element either a special value (+-0, +-1, +-Inf, NaN, subnormals, largest finite, just inside/outside [-1,1], arguments that overflow exp/sinh/cosh, multiples of pi) or random with magnitudes 1e-30..1e4; Abs and PRelu also on the integer types their gates accept; PRelu slopes of every unidirectionally broadcastable shape (incl. (C,1,1)-style) and non-broadcastable ones; the first cases of every operator sweep the special values one by one; Not on bool tensors", false, 120)
+		"16 float operators x seeded random cases: shapes of rank 0..4 (<= 12 elements), float32 and float64, every element either a special value (+-0, +-1, +-Inf, NaN, subnormals, largest finite, just inside/outside [-1,1], arguments that overflow exp/sinh/cosh, multiples of pi) or random with magnitudes 1e-30..1e4; Abs and PRelu also on the integer types their gates accept; PRelu slopes of every unidirectionally broadcastable shape (incl. (C,1,1)-style) and non-broadcastable ones; the first cases of every operator sweep the special values one by one, then a pattern of zeros of alternating sign and repeated values next to each other; Not on bool tensors", false, 120)
 	for _, op := range c10ops {
 		op := op
 		// sweep of the special values, float32 then float64, 8 per case
@@ -112,6 +112,25 @@ func genC10(dir, tier string, seed int64) {
 				v := append([]float64{}, sp64[i:j]...)
 				emitOp(cw, op, nil, func() []tensor.Tensor {
 					return []tensor.Tensor{tensor.New(tensor.WithShape(len(v)), tensor.WithBacking(append([]float64{}, v...)))}
+				})
+			}
+		}
+		if op != "PRelu" && op != "Not" {
+			// runs of equal values and zeros of alternating sign next to each other (every element is mapped on
+			// its own: f(-0) after f(+0) is still f(-0))
+			nz := math.Copysign(0, -1)
+			pat := []float64{0, nz, 0, nz, nz, 0, 0.5, 0.5, nz, 0.5, -0.5, 0, nz}
+			for _, f64 := range []bool{false, true} {
+				f64 := f64
+				emitOp(cw, op, nil, func() []tensor.Tensor {
+					if f64 {
+						return []tensor.Tensor{tensor.New(tensor.WithShape(len(pat)), tensor.WithBacking(append([]float64{}, pat...)))}
+					}
+					v := make([]float32, len(pat))
+					for i, x := range pat {
+						v[i] = float32(x)
+					}
+					return []tensor.Tensor{tensor.New(tensor.WithShape(len(pat)), tensor.WithBacking(v))}
 				})
 			}
 		}
